@@ -324,7 +324,7 @@ impl Session {
                 sys::guard_disarm();
             }
             let Some(slot) = slot else {
-                return Err(Failure::new("ring|no-sqe-slot|ring not full", format!("get_next_sqe_slot returned None with {} of {} slots in use", expected.len(), self.sq_entries)));
+                return Err(Failure::new(if sqpoll { "ring|no-sqe-slot|hang guard" } else { "ring|no-sqe-slot|ring not full" }, format!("get_next_sqe_slot returned None with {} of {} slots in use", expected.len(), self.sq_entries)));
             };
             unsafe {
                 match s {
